@@ -29,6 +29,7 @@ P = {
  "C13": ("LibTrace", "TLA+ spec (Lib: VerdictWellFormed, Discloses) + TLC trace validation of every failing call", "5/C13"),
  "C18": ("RestTrace", "TLA+ spec (spec/RestTrace.tla: per-endpoint request->library mapping composed with Lib; spec/Rest.tla small-scope model) + TLC validation of every exchange recorded from the real server binary on loopback (sequential, kept-alive and fresh connections, 8 concurrent clients)", "5/C18"),
  "C19": ("RestTrace", "TLA+ spec (spec/Rest.tla: bounded work, status classes, Received ~> Responded under fairness, model-checked with its unguarded negative twin; spec/RestTrace.tla) + TLC validation of fault sequences interleaved with probes against the real server binary, 3 s deadline per exchange, liveness probe at the end", "5/C19"),
+ "C20": ("WasmTrace", "TLA+ spec (spec/WasmTrace.tla: JS argument-marshalling layer composed with the native Lib operators; spec/Wasm.tla small-scope model incl. export-table identity) + TLC validation of every call made under Node to the freshly built otp.wasm, via globalThis and via the JS package's export object", "5/C20"),
 }
 
 def main():
@@ -69,6 +70,8 @@ def main():
              "kind_free_text": "TLA+ model of Get/fill/HMAC/format/deferred Put with adversary and GC; PoolsGen generates behaviours (tlc -simulate), harness/gate.go replays them on the real code under GOMAXPROCS(1) through the verif hook's gates, PoolsTrace validates the recorded events (unlogged Get/Put inferred by TLC)"},
             {"name": "RestTrace", "path": "spec/RestTrace.tla", "serves_properties": ["C18", "C19"],
              "kind_free_text": "explicit TLA+ description of the ten endpoints (field defaults, refusal conditions, response shape) over the Lib operators; black-box driver harness/rest.go + rest_scen.go against the server binary built from the current tree"},
+            {"name": "WasmTrace", "path": "spec/WasmTrace.tla", "serves_properties": ["C20"],
+             "kind_free_text": "TLA+ description of the five JS-visible functions over the native Lib operators; harness/wasm.go generates calls and merges results, harness/js/driver.js runs them under Node 20 against GOOS=js GOARCH=wasm build of the current tree and a scratch copy of otp-js/src/index.js"},
             {"name": "Taint", "path": "spec/Taint.tla", "serves_properties": ["C09"],
              "kind_free_text": "TLA+ taint-propagation system over a program graph; constants come from harness/ssagraph (x/tools go/ssa + CHA call graph) run on the current tree"},
             {"name": "LibTrace", "path": "spec/LibTrace.tla", "serves_properties": [p for p in ids if p in P and P[p][0] == "LibTrace"],
@@ -88,6 +91,7 @@ LEVEL_DEFAULT = ("Explicit TLA+ specification checked by TLC: small-scope config
                  "at every boundary the case analysis has, not proved for all 2^64 counters.")
 LEVEL_TEXT = {}
 NOTES = {
+ "C20": "Node 20, syscall/js and the toolchain's wasm_exec.js are environment. Numbers are exercised up to 2^53 (exactly representable); fractional arguments only where they are exactly representable. The package path uses the repository's own otp-js/src/index.js and wasm_exec.js with lib/otp.wasm replaced by the fresh build (the committed binary is a release artefact and is not judged).",
  "C18": "Black-box: fasthttp, encoding/json and net/http are environment. The server's clock is bounded by the client's clock before and after the exchange (same host). HMAC oracle as elsewhere. Request strings are valid UTF-8; texts with Unicode white space at the edges are left undecided.",
  "C19": "Liveness is proved on the small-scope model (fairness, 3 requests, scaled skew limit) and observed on the real server with a 3 s deadline per exchange (normal latency is below 1 ms). Bodies beyond the 1 MiB limit are outside the property's domain (the server may drop the connection); syntactic malformedness classes (broken JSON, wrong JSON type) are the request generator's claim, the body text is kept in the replay file.",
  "C09": "Model checking of an extracted abstraction: the verdict is TLC's (NoLeak over the taint fixpoint), the binding is the extractor, re-run on the current tree for three build configurations. Trusted: the SSA builder and CHA call graph of x/tools v0.29, the extractor's transfer rules for calls outside the analysed packages (result tainted iff an argument is; copy/json.Unmarshal/hex.Decode/PutUint64/io.ReadFull/Write taint an argument), the list of variable-time primitives; implicit (control) flows and hardware timing are out of scope. Non-vacuity is checked: every constant-time comparison site must be reached by HMAC-derived data on one operand and submitted text on the other.",
